@@ -14,10 +14,14 @@ from . import cexpr
 
 TRUE_IF = ["1", "defined(DEF1)", "defined DEF1", "!defined(UNDEF)", "DEF1", "!UNDEF", "DEF1 && !UNDEF", "!DEF0",
            "defined(DEFE)", "DEF1 == 1", "UNDEF == 0", "(DEF1)", "2 > 1", "true", "defined(DEF0) && !DEF0",
-           "__has_include(\"exists.h\")", "!__has_include(\"missing.h\")", "__has_include(<exists.h>)"]
+           "__has_include(\"exists.h\")", "!__has_include(\"missing.h\")", "__has_include(<exists.h>)",
+           "ALIAS_UNDEF == 0", "!ALIAS_UNDEF", "ALIAS1", "EXPR1 == 1", "FN(UNDEF) == 1", "FN(ALIAS_UNDEF)", "ALIAS2 + 1 > 0",
+           "PICK(UNDEF, DEF1)", "!ALIAS2 && ALIAS1", "defined(ALIAS_UNDEF)", "NUM7 - 7 == UNDEF"]
 FALSE_IF = ["0", "defined(UNDEF)", "defined UNDEF", "!defined(DEF1)", "DEF0", "UNDEF", "DEF1 && UNDEF", "!DEF1",
             "DEF1 == 2", "UNDEF != 0", "(DEF0)", "1 > 2", "false", "defined(UNDEF) || DEF0",
-            "__has_include(\"missing.h\")", "!__has_include(\"exists.h\")", "__has_include(<missing.h>)"]
+            "__has_include(\"missing.h\")", "!__has_include(\"exists.h\")", "__has_include(<missing.h>)",
+            "ALIAS_UNDEF", "ALIAS1 == 0", "EXPR1 - 1", "FN(UNDEF) - 1", "ALIAS2", "PICK(DEF1, UNDEF)", "ALIAS2 - 1 > 0",
+            "!defined(ALIAS2)", "NUM7 - 7 != UNDEF"]
 
 
 def spell(spec, env_prefix=""):
@@ -29,9 +33,9 @@ def spell(spec, env_prefix=""):
     e = spec.get("expr")
     if e is not None:
         try:
-            e2 = cexpr.repair(e, [])
-            v, _ = cexpr.evaluate(e2, [])
-            txt = cexpr.render(e2, [], pp=True)[0]
+            e2 = cexpr.repair(e, PP_ENV)
+            v, _ = cexpr.evaluate(e2, PP_ENV)
+            txt = cexpr.render(e2, PP_ENV, pp=True)[0]
             if bool(v) != bool(truth):
                 txt = "!(%s)" % txt
             return "#%s %s" % (form, txt)
@@ -119,7 +123,12 @@ class Render:
             self.lines.append("#endif")
 
 
-PRELUDE = "#define DEF1 1\n#define DEF0 0\n#define DEFE\n"
+PRELUDE = ("#define DEF1 1\n#define DEF0 0\n#define DEFE\n#define ALIAS_UNDEF UNDEF\n#define ALIAS1 DEF1\n#define ALIAS2 ALIAS_UNDEF\n"
+           "#define EXPR1 (DEF1 + UNDEF)\n#define NUM7 7\n#define FN(x) ((x) + 1)\n#define PICK(a, b) b\n")
+# what the macros are worth inside #if (for the cexpr generator)
+PP_ENV = [("DEF1", 1, "i"), ("DEF0", 0, "i"), ("UNDEF", 0, "i"), ("ALIAS_UNDEF", 0, "i"), ("ALIAS1", 1, "i"), ("ALIAS2", 0, "i"),
+          ("EXPR1", 1, "i"), ("NUM7", 7, "i"), ("FN(UNDEF)", 1, "i"), ("FN(ALIAS1)", 2, "i"), ("PICK(UNDEF, NUM7)", 7, "i"),
+          ("UNDEF_OTHER", 0, "i")]
 
 
 def render_program(tree, pid, off=frozenset()):
@@ -137,7 +146,7 @@ def render_program(tree, pid, off=frozenset()):
 
 def _spec(first):
     forms = ["if", "if", "ifdef", "ifndef"] if first else ["elif", "elif", "elifdef", "elifndef"]
-    ex = st.one_of(st.none(), st.none(), cexpr.expressions(max_leaves=6, refs=False, casts=False, comma=False, pp=True))
+    ex = st.one_of(st.none(), st.none(), cexpr.expressions(max_leaves=6, refs=True, casts=False, comma=False, pp=True))
     return st.builds(lambda f, t, sp, e: {"form": f, "truth": t, "sp": sp, "expr": e if f in ("if", "elif") else None},
                      st.sampled_from(forms), st.integers(0, 1), st.integers(0, 40), ex)
 
